@@ -425,7 +425,7 @@ func (s *mgrSession) monitor(pre quic.VerifMgrState, o *mOp) {
 	// conflicting contents for a queued sequence number must be refused
 	if o.kind == "add" {
 		for _, e := range pre.Queue {
-			if e.Seq == o.seq && (!bytes.Equal(e.CID, o.cid) || e.Tok != o.tok) && o.cls != quic.VerifOtherErr {
+			if e.Seq == o.seq && (!bytes.Equal(e.CID, o.cid) || e.Tok != o.tok) && o.cls != quic.VerifOtherErr && len(pre.ActiveCID) != 0 {
 				s.fail("conflict-accepted", fmt.Sprintf("conflicting contents for queued sequence number %d gave class %d", o.seq, o.cls))
 			}
 		}
